@@ -1,16 +1,98 @@
 (* C12 — a built DAWG is an exact, minimal, rank-indexed index of its word set.
-   Only the property theorems, closed by [exact], and their assumptions. *)
+   Only the property theorems, closed by [exact], and their assumptions.
+
+   Model: Dawg/Model.v (store of nodes keyed by id; add, finish, new_dawg, lookup,
+   number_of_words).  Specification: Dawg/Spec.v ([increasing] = strictly increasing for
+   bytes.Compare, [accepts] = the language of a node, [reach], [rank_of] = position in the
+   list, [minimal_size] = number of distinct residual languages of prefixes). *)
 From Coq Require Import List NArith ZArith.
-From Mamba Require Import Dawg.Model Dawg.Tree Dawg.Spec Dawg.BuildProofs.
+From Mamba Require Import Dawg.Model Dawg.Tree Dawg.Spec Dawg.BuildProofs Dawg.BuildSeq Dawg.LangOrder Dawg.LangStore.
 Import ListNotations.
 
-(* An Add that returns an error leaves the builder exactly as it was, so whatever is added
-   afterwards builds the same automaton as if the rejected call had not happened. *)
+Definition ex_ws : list word :=
+  [[]; [1%N]; [1%N; 2%N]; [1%N; 2%N; 3%N]; [1%N; 3%N; 3%N]; [2%N; 2%N; 3%N]; [2%N; 3%N; 3%N]; [3%N]].
+
+(* New succeeds (no panic, no error) on every strictly increasing list, [] and [""] included. *)
+Theorem C12_new_succeeds : forall ws, increasing ws -> exists s, new_dawg ws = Ok (Some s).
+Proof. exact new_dawg_total. Qed.
+Print Assumptions C12_new_succeeds.
+
+Example C12_new_succeeds_nonvacuous :
+  increasing ex_ws /\ increasing [] /\ increasing [[]] /\
+  (exists s, new_dawg [] = Ok (Some s)) /\ (exists s, new_dawg [[]] = Ok (Some s)).
+Proof. vm_compute. repeat split; eexists; reflexivity. Qed.
+
+(* The automaton accepts exactly the words of the list. *)
+Theorem C12_language : forall ws s, increasing ws -> new_dawg ws = Ok (Some s) ->
+  forall w, accepts s root w <-> In w ws.
+Proof. exact dawg_language. Qed.
+Print Assumptions C12_language.
+
+(* NumberOfWords is the number of words. *)
+Theorem C12_number_of_words : forall ws s, increasing ws -> new_dawg ws = Ok (Some s) ->
+  number_of_words s root = Ok (Z.of_nat (length ws)).
+Proof. exact dawg_number_of_words. Qed.
+Print Assumptions C12_number_of_words.
+
+(* numWords of every reachable node is the size of the node's right language. *)
+Theorem C12_num_words_every_node : forall ws s, increasing ws -> new_dawg ws = Ok (Some s) ->
+  forall j n, reach s root j -> sget s j = Some n ->
+  exists l, NoDup l /\ (forall w, In w l <-> accepts s j w) /\ nwords n = Z.of_nat (length l).
+Proof. exact dawg_num_words. Qed.
+Print Assumptions C12_num_words_every_node.
+
+(* Lookup w = (position of w in the list, true) for members, (0, false) — [None] in the model —
+   for every other byte string ... *)
+Theorem C12_lookup : forall ws s, increasing ws -> new_dawg ws = Ok (Some s) ->
+  forall w, lookup s root w = Ok (option_map Z.of_nat (rank_of w ws)).
+Proof. exact dawg_lookup. Qed.
+Print Assumptions C12_lookup.
+
+(* ... where [rank_of w ws] is defined exactly for the members, and is then the number of
+   words of the list below w: the rank of w in lexicographic order. *)
+Theorem C12_rank_of_members : forall w ws, rank_of w ws = None <-> ~ In w ws.
+Proof. exact rank_of_none. Qed.
+Print Assumptions C12_rank_of_members.
+
+Theorem C12_rank_is_lexicographic : forall ws w r, increasing ws -> rank_of w ws = Some r ->
+  r = length (filter (fun x => lex_ltb x w) ws).
+Proof. exact rank_of_lex_rank. Qed.
+Print Assumptions C12_rank_is_lexicographic.
+
+Example C12_language_nonvacuous :
+  exists s, new_dawg ex_ws = Ok (Some s) /\ increasing ex_ws /\
+    lookup s root [2%N; 2%N; 3%N] = Ok (Some 5%Z) /\ lookup s root [2%N; 2%N] = Ok None /\
+    lookup s root [] = Ok (Some 0%Z) /\ number_of_words s root = Ok 8%Z /\
+    number_of_nodes 100 s root = Ok 6%nat.
+Proof. eexists. vm_compute. repeat split. Qed.
+
+(* An Add that returns an error leaves the builder exactly as it was ... *)
 Theorem C12_rejected_add_unchanged : forall b w b', add b w = Ok (b', false) -> b' = b.
 Proof. exact add_rejected_unchanged. Qed.
 Print Assumptions C12_rejected_add_unchanged.
+
+(* ... and for every sequence of Add calls whatsoever on a fresh builder: no call panics, a call
+   is rejected exactly when its word is not above the last accepted word, and the builder
+   ends in the state reached by adding the accepted words alone (a strictly increasing list),
+   so that Finish returns the automaton New builds from the accepted words. *)
+Theorem C12_add_sequence : forall ws,
+  exists b, add_seq initialise ws = Ok (b, accept_flags None ws) /\
+            add_all initialise (kept None ws) = Ok (Some b) /\
+            increasing (kept None ws).
+Proof. exact add_seq_total. Qed.
+Print Assumptions C12_add_sequence.
+
+Theorem C12_finish_after_add_sequence : forall ws b oks, add_seq initialise ws = Ok (b, oks) ->
+  finish b = new_dawg (kept None ws).
+Proof. exact finish_after_add_seq. Qed.
+Print Assumptions C12_finish_after_add_sequence.
 
 Example C12_rejected_nonvacuous :
   exists b b1, add_seq initialise [[1%N; 2%N]; [1%N; 3%N]] = Ok (b, [true; true]) /\
     add b [1%N; 2%N] = Ok (b1, false) /\ add b [1%N; 3%N] = Ok (b1, false) /\ add b [] = Ok (b1, false).
 Proof. eexists. eexists. vm_compute. repeat split. Qed.
+
+Example C12_add_sequence_nonvacuous :
+  accept_flags None [[2%N]; [1%N]; [2%N]; [2%N; 1%N]; []; [3%N]] = [true; false; false; true; false; true] /\
+  kept None [[2%N]; [1%N]; [2%N]; [2%N; 1%N]; []; [3%N]] = [[2%N]; [2%N; 1%N]; [3%N]].
+Proof. vm_compute. split; reflexivity. Qed.
